@@ -205,3 +205,47 @@ func (u *Unit) instOpenFacts(nAssume int) (facts []*Term, ptrs []ptrFact) {
 	}
 	return facts, ptrs
 }
+
+// indexTerms collects ground integer terms used as slice indices in the given formulas (E-matching by hand: the
+// solvers normalise sums, so the pattern (+ off i) rarely matches (+ off j 1)).
+func indexTerms(ts []*Term, max int) []*Term {
+	var out []*Term
+	seenT := map[int]bool{}
+	seen := map[int]bool{}
+	add := func(t *Term) {
+		if t.open || t.Sort != SInt || seenT[t.id] || len(out) >= max {
+			return
+		}
+		if t.Op == "sel" && t.Name == "soff" {
+			return
+		}
+		if t.Op == "int" && t.Name == "0" {
+			return
+		}
+		seenT[t.id] = true
+		out = append(out, t)
+	}
+	var walk func(t *Term)
+	walk = func(t *Term) {
+		if seen[t.id] {
+			return
+		}
+		seen[t.id] = true
+		if t.Op == "ctor" && t.Name == "pe" && !t.open {
+			x := t.Args[1]
+			if x.Op == "+" {
+				add(x.Args[0])
+				add(x.Args[1])
+			} else {
+				add(x)
+			}
+		}
+		for _, a := range t.Args {
+			walk(a)
+		}
+	}
+	for _, t := range ts {
+		walk(t)
+	}
+	return out
+}
